@@ -200,3 +200,16 @@ pub fn dump_bw6<P: ark_ec::bw6::BW6Config>(name: &str) -> Value where P::Fp: Ele
         "g1_a": <P::G1Config as SWCurveConfig>::COEFF_A.to_abs(true).unwrap(), "g1_b": <P::G1Config as SWCurveConfig>::COEFF_B.to_abs(true).unwrap(),
         "g2_a": <P::G2Config as SWCurveConfig>::COEFF_A.to_abs(true).unwrap(), "g2_b": <P::G2Config as SWCurveConfig>::COEFF_B.to_abs(true).unwrap()})
 }
+
+pub fn dump_mont<P: ark_ec::twisted_edwards::MontCurveConfig>(name: &str) -> Value where P::BaseField: Elem {
+    use ark_ec::twisted_edwards::TECurveConfig;
+    json!({"op": "mont", "name": name, "p": big(&P::BaseField::modulus()), "lv": P::BaseField::levels(true),
+        "a": <P::TECurveConfig as TECurveConfig>::COEFF_A.to_abs(true).unwrap(), "d": <P::TECurveConfig as TECurveConfig>::COEFF_D.to_abs(true).unwrap(),
+        "A": <P as ark_ec::twisted_edwards::MontCurveConfig>::COEFF_A.to_abs(true).unwrap(), "B": <P as ark_ec::twisted_edwards::MontCurveConfig>::COEFF_B.to_abs(true).unwrap()})
+}
+pub fn dump_ell2<P: ark_ec::hashing::curve_maps::elligator2::Elligator2Config>(name: &str) -> Value where P::BaseField: Elem {
+    json!({"op": "ell2", "name": name, "p": big(&P::BaseField::modulus()), "lv": P::BaseField::levels(true),
+        "a": <P as ark_ec::twisted_edwards::TECurveConfig>::COEFF_A.to_abs(true).unwrap(), "d": <P as ark_ec::twisted_edwards::TECurveConfig>::COEFF_D.to_abs(true).unwrap(),
+        "A": <P as ark_ec::twisted_edwards::MontCurveConfig>::COEFF_A.to_abs(true).unwrap(), "B": <P as ark_ec::twisted_edwards::MontCurveConfig>::COEFF_B.to_abs(true).unwrap(),
+        "Z": P::Z.to_abs(true).unwrap(), "one_over_b_sq": P::ONE_OVER_COEFF_B_SQUARE.to_abs(true).unwrap(), "a_over_b": P::COEFF_A_OVER_COEFF_B.to_abs(true).unwrap()})
+}
